@@ -76,6 +76,30 @@ Definition int_ok (limit : N) (s : str) (exp : res Z) : bool :=
 Definition dec_ok (s : str) (exp : option (Z * Z)) : bool :=
   option_eqb (prod_eqb Z.eqb Z.eqb) (float_decimal s) exp.
 Definition json_ok (v : jv) (exp : str) : bool := str_eqb (json_filter v) exp.
+Fixpoint jv_eqb (a b : jv) : bool :=
+  match a, b with
+  | JNull, JNull => true
+  | JBool x, JBool y => Bool.eqb x y
+  | JInt x, JInt y => Z.eqb x y
+  | JStr x, JStr y => str_eqb x y
+  | JList x, JList y =>
+      (fix go (x y : list jv) : bool :=
+         match x, y with
+         | [], [] => true
+         | a :: x', b :: y' => jv_eqb a b && go x' y'
+         | _, _ => false
+         end) x y
+  | JDict x, JDict y =>
+      (fix go (x y : list (str * jv)) : bool :=
+         match x, y with
+         | [], [] => true
+         | (k, a) :: x', (k2, b) :: y' => str_eqb k k2 && jv_eqb a b && go x' y'
+         | _, _ => false
+         end) x y
+  | _, _ => false
+  end.
+Definition jdec_ok (text : str) (exp : jv) : bool :=
+  match json_decode text with Some v => jv_eqb v exp | None => false end.
 """
 
 SQ, DQ = "'", '"'
@@ -994,6 +1018,9 @@ def tie_json(run: Run) -> None:
                      {"value": v, "output": out[1]})
         run.add("json", f"json_ok {c_jv(v)} {C.cstr(out[1])}", f"json_filter {c_jv(v)}",
                 {"template": "{{ x | json }}", "x": v, "implementation": out[1]})
+        if not isinstance(back, BaseException):
+            run.add("json_decode", f"jdec_ok {C.cstr(out[1])} {c_jv(back)}", f"json_decode {C.cstr(out[1])}",
+                    {"function": "json.loads", "text": out[1], "implementation": back})
         if out[1] != json.dumps(v, ensure_ascii=False, separators=(",", ":")):
             run.nontrivial.add("j:" + out[1])
 
